@@ -131,6 +131,15 @@ def run(repo, chk):
     chk.ob("R17.2", "overlay.BaseOverlay:deactivation-removes-this-probe's-handlers", ok, oex.where,
            f"the overlay behind a probe restores the context with the token its own activation stored on the instance ({toks} vs {resets}): after deactivate() the probe's handlers are no longer installed, "
            "whatever other probes were activated or deactivated in between is decided by C05 R05.3")
+    from ..pairing import journal_findings
+    from ..callgraph import CallGraph
+    cg_ = CallGraph(repo)
+    for jq in ("probe.Probe._install_tooling", "overlay.autotool"):
+        jf = repo.func(jq)
+        for journal, res, site, ok_, detail in journal_findings(repo, jf, cg_, ctxvars):
+            chk.ob("R17.1", f"{jq}:a-refused-activation-disturbs-nothing[{journal}:{site}]", ok_, jf.where,
+                   f"an activation that is refused undoes exactly what it had done ({jq}, journal `{journal}`): probes that are active on the same functions keep their instrumentation, so their streams and reductions see every event of their active period"
+                   if ok_ else detail)
     # R17.3
     pushers = sorted({q for q, fi in repo.functions.items() for c in walk_local(fi.node)
                       if isinstance(c, ast.Call) and isinstance(c.func, ast.Attribute) and c.func.attr == "_push"})
